@@ -268,8 +268,7 @@ def r_tailchk(repo, tier):
     nsl = 0
     for fid, (f, tails) in sorted(tfs.items(), key=lambda kv: kv[1][0].key):
         tv = tail_vars(f.node, tails)
-        reads = [r for r in consuming_reads(f.node, tv) if r.kind == "slice"]
-        if not reads:
+        if not any(isinstance(x, ast.Subscript) and isinstance(x.value, ast.Name) and x.value.id in tv and isinstance(x.slice, ast.Slice) and not _is_open_slice(x.slice, tv) for x in ast.walk(f.node)):
             continue
         cfg = CFG(f.node)
         # guard tests: If whose body raises (on every path) and whose test compares T.size / len(T) with a bound
@@ -282,10 +281,32 @@ def r_tailchk(repo, tier):
                         for t in tv:
                             if l in ("%s.size" % t, "len(%s)" % t):
                                 guards.append((n.id, t, norm(c.comparators[0])))
-        for r in reads:
-            node = cfg.stmt_node.get(id(r.stmt))
-            for x in ast.walk(r.stmt):
-                if isinstance(x, ast.Subscript) and isinstance(x.value, ast.Name) and x.value.id in tv and isinstance(x.slice, ast.Slice) and not _is_open_slice(x.slice, tv):
+        # every bounded slice of a tail variable, in any expression context (assigned, passed to pack(), to cst() ...)
+        sites = []
+        for nd in cfg.nodes:
+            if nd.ast is None or nd.kind not in ("stmt", "test", "return", "assert"):
+                continue
+            tgt = nd.ast.test if nd.kind == "test" else nd.ast
+            for x in _walk_no_nested(tgt):
+                if isinstance(x, ast.Subscript) and isinstance(x.value, ast.Name) and x.value.id in tv and isinstance(x.slice, ast.Slice) and not _is_open_slice(x.slice, tv) and isinstance(x.ctx, ast.Load):
+                    sites.append((nd, x))
+        # tails converted to a byte string (data = pack(data)) are consumed through LEB128 readers that return the
+        # number of bytes they used: slices bounded by that count cannot over-read; they are outside this rule
+        bytes_tails = set()
+        for a0 in ast.walk(f.node):
+            if isinstance(a0, ast.Assign) and isinstance(a0.targets[0], ast.Name) and isinstance(a0.value, ast.Call) and isinstance(a0.value.func, ast.Name) and a0.value.func.id in ("pack", "bytes"):
+                bytes_tails.add(a0.targets[0].id)
+        seen_sites = set()
+        for node, x in sites:
+            if x.value.id in bytes_tails:
+                out.undecide(f.file, f.dqual, norm(x), "byte-string tail (LEB128 idiom): slice bounds come from the reader's byte count")
+                continue
+            if True:
+                if True:
+                    k0 = (node.id, norm(x))
+                    if k0 in seen_sites:
+                        continue
+                    seen_sites.add(k0)
                     nsl += 1
                     up = norm(x.slice.upper)
                     lo = norm(x.slice.lower) if x.slice.lower is not None else "0"
